@@ -69,6 +69,10 @@ def _cfg_model(tier):
         for kind in ('dicts', 'donor'):
             for wd in (False, True):
                 out.append({'m': m, 'n': n, 'kind': kind, 'wd': wd})
+    if tier == 'quick':
+        # several BC points inside ONE table interval / more bands than rows (BC points spaced more closely than the table rows)
+        out.append({'m': 4, 'n': 2, 'kind': 'dicts', 'wd': False})
+        out.append({'m': 3, 'n': 3, 'kind': 'donor', 'wd': False})
     return out
 
 
@@ -86,7 +90,7 @@ def _table(ctx, n):
 @harness('C14.model', 'C14', configs=_cfg_model, functions=FUNCS, cost=10,
          must_reach=['check:effective_bc_is_interpolated', 'check:table_input_intact', 'check:points_intact', 'check:second_build_identical'],
          engine_opts={'div_check': False},
-         bounds='m BC points x n table nodes in {(1,2),(2,2),(2,3),(3,2)} (quick) up to (4,2)/(3,3)/(2,4) (thorough); points in every relative order '
+         bounds='m BC points x n table nodes in {(1,2),(2,2),(2,3),(3,2),(4,2),(3,3)} (quick) up to (4,2)/(3,3)/(2,4) (thorough); points in every relative order '
                 '(distinct Mach); table as dict list and as the data points of a donor model; with and without weight/diameter; built twice',
          assumptions=['BC points have pairwise distinct Mach numbers (interpolation is not defined on duplicates)'])
 def c14_model(ctx, m, n, kind, wd):
